@@ -152,12 +152,47 @@ func extractSlice(repo string, facts Facts) (string, string) {
 			note("StatusSet.%s writes through s.statuses before cloning it", name)
 		}
 	}
-	sf := map[string]any{"statusSetClonesBeforeWriting": ssCow, "tailAssignedOnlyFreshSlices": onlyFresh, "tailNeverDestination": neverDst, "tailNeverIndexAssigned": neverIdx, "notes": notes}
+	// lpm.Iterator.All (lpm/iterator.go): "can be called multiple times": the traversal pops and pushes
+	// on a LOCAL stack that is a copy of it.stack (the array on the goroutine stack, or slices.Clone),
+	// never it.stack itself or a slice sharing its backing array
+	fi := parse(filepath.Join(repo, "lpm", "iterator.go"))
+	allFn := findFunc(fi, "All", "Iterator")
+	if allFn == nil {
+		fail("lpm/iterator.go: Iterator.All not found")
+	}
+	allCopies := true
+	sawAssign := false
+	ast.Inspect(allFn.Body, func(n ast.Node) bool {
+		as, ok := n.(*ast.AssignStmt)
+		if !ok {
+			return true
+		}
+		for i, l := range as.Lhs {
+			ls := exprString(l)
+			if strings.HasPrefix(ls, "it.stack") || ls == "it.start" {
+				allCopies = false
+				note("Iterator.All assigns %s", ls)
+			}
+			if ls == "stack" && i < len(as.Rhs) {
+				sawAssign = true
+				r := exprString(as.Rhs[i])
+				ok := strings.HasPrefix(r, "stackArray[") || r == "slices.Clone(it.stack)" || strings.HasPrefix(r, "append(stack,") || strings.HasPrefix(r, "stack[")
+				if !ok {
+					allCopies = false
+					note("Iterator.All: stack = %s", r)
+				}
+			}
+		}
+		return true
+	})
+	allCopies = allCopies && sawAssign
+	sf := map[string]any{"lpmIteratorAllWorksOnACopy": allCopies, "statusSetClonesBeforeWriting": ssCow, "tailAssignedOnlyFreshSlices": onlyFresh, "tailNeverDestination": neverDst, "tailNeverIndexAssigned": neverIdx, "notes": notes}
 	facts["lpm_entry"] = sf
 	var sb strings.Builder
 	sb.WriteString("-- GENERATED by tools/extract from the current source (lpm_index.go: lpmEntry.upsert / delete). Do not edit.\n")
 	sb.WriteString("import SdbModel.Model.SliceCow\nnamespace Sdb.Gen\n")
 	fmt.Fprintf(&sb, "def lpmEntryFacts : SliceCow.EntryFacts := { tailAssignedOnlyFreshSlices := %v, tailNeverDestination := %v, tailNeverIndexAssigned := %v }\n", onlyFresh, neverDst, neverIdx)
+	fmt.Fprintf(&sb, "/-- lpm.Iterator.All traverses a copy of the iterator's stack and assigns nothing to the iterator -/\ndef lpmIteratorAllWorksOnACopy : Bool := %v\n", allCopies)
 	fmt.Fprintf(&sb, "/-- reconciler.StatusSet.Set / Pending clone `s.statuses` (unconditionally, first) before writing through it -/\ndef statusSetClonesBeforeWriting : Bool := %v\n", ssCow)
 	sb.WriteString("end Sdb.Gen\n")
 	return "SliceParams.lean", sb.String()
